@@ -6,6 +6,7 @@
 package main
 
 import (
+	"runtime"
 	"fmt"
 	"sort"
 	"strings"
@@ -686,6 +687,58 @@ func modes() {
 	w.R.Scenarios["mode_sequences"] = len(seqs)
 }
 
+// ---------- calls that have to wait for room in the event queue ----------
+
+// fullQueue: the event queue holds its 10 events; SetSize (whose resize event has to wait for
+// room) runs on a second goroutine; while it waits, every call that takes the screen lock must
+// still return - a waiting call must not hold the lock. The JavaScript side is a pure
+// JavaScript stub here, so that no Go callback is entered from the second goroutine.
+func fullQueue() {
+	if *hc.Shard != 2%*hc.NShards {
+		return
+	}
+	g := js.Global()
+	saved := g.Get("resize")
+	g.Call("eval", "globalThis.resize = function(w, h) {}")
+	defer g.Set("resize", saved)
+	for _, pre := range []int{9, 10} {
+		w.R.Evaluations++
+		w.AddDistinct(1)
+		s := newScreen(4, 2)
+		for i := 0; i < pre; i++ {
+			if err := s.PostEvent(tcell.NewEventInterrupt(i)); err != nil {
+				w.Violation("wasm-fullqueue-setup", fmt.Sprintf("PostEvent %d of %d failed: %v", i, pre, err), nil)
+			}
+		}
+		done := false
+		go func() {
+			s.SetSize(7, 3)
+			s.SetSize(8, 3) // with 9 events queued the second one has to wait
+			done = true
+		}()
+		for i := 0; i < 50 && !done; i++ {
+			runtime.Gosched()
+		}
+		if !tcell.VerifWasmLockFree(s) {
+			w.Violation("wasm-wedge:SetSize-waiting", fmt.Sprintf("with %d undelivered events a SetSize on another goroutine is waiting for room in the event queue while holding the screen lock: every call that takes the lock (Show, Size, Suspend ...) now blocks until the application polls, which an event loop blocked in Show never does", pre), map[string]interface{}{"queued": pre})
+		} else {
+			s.Size()
+			s.Show()
+		}
+		// drain: the waiting call must complete
+		for i := 0; i < 40 && !done; i++ {
+			for s.HasPendingEvent() {
+				s.PollEvent()
+			}
+			runtime.Gosched()
+		}
+		if !done {
+			w.Violation("wasm-setsize-never-returns", fmt.Sprintf("SetSize did not return although the event queue was drained (%d events were queued)", pre), nil)
+		}
+		s.Fini()
+	}
+}
+
 func main() {
 	w = hc.Start("C19")
 	w.R.Rule = "the package is compiled for GOOS=js GOARCH=wasm from the current tree (the check's build step; a compile error is reported with the compiler output); inside the wasm program under Node, with recording stand-ins for tcell.js: BFS (depth 4, thorough 5) over draw histories (wide-rune/combining/control alphabet 4x1, five-style alphabet 2x2 incl. basic, 256-palette and RGB colours, attributes, underline style/colour) comparing the page grid rebuilt from drawCell calls with the shadow model after every Show/Sync and requiring drawn cells to be changed cells; every name of WebKeyNames and six printable keys x 16 modifier combinations, modifier-only keys, both mouse callbacks x 4 button codes x 8 modifier sets x 8 enabled-flag sets, paste and focus callbacks enabled and disabled; all 340 orders of Suspend/Resume/SetSize/Fini up to length 4, each on a fresh screen, a call that returns with the screen lock held being detected by probing the lock (no wall clock); all sequences up to length 4 (5) over EnableMouse(all|buttons)/DisableMouse/EnablePaste/DisablePaste/EnableFocus/Suspend/Resume with key, click, motion, paste and focus callbacks probed after every step at which the screen is running. distinct_nontrivial = input cases + lifecycle sequences + draw states"
@@ -699,6 +752,7 @@ func main() {
 	inputs()
 	lifecycle()
 	modes()
+	fullQueue()
 	for i := int64(0); i < w.R.States; i++ {
 		w.Distinct(uint64(*hc.Shard)<<40 | uint64(i))
 	}
